@@ -46,7 +46,12 @@ theorem bstep_form (hI : Inv false s) (hB : BInv s) (hph : BodyPhase s) (h1 : s.
     (node : El) (hf : s.formPtr = some node) :
     BStep s (({ s with formPtr := none } : State).genImplied.removeFromStack node) := by
   have hen : node.isAnchor = false := hB.form node hf
-  refine bstep_filter hB hph h1 h2 node hen ?_ ⟨rfl, rfl⟩ (Or.inr (Or.inl rfl)) (Or.inl rfl)
+  refine bstep_filter hB hph h1 h2 node hen ?_ ⟨rfl, rfl⟩ (Or.inr (Or.inl rfl)) (Or.inl rfl) ?_
+  rotate_left 1
+  · intro _ hS
+    have hT : TreeOk PNoSel s.tree := ⟨hS, hI.tree.afe⟩
+    have : TreeOk PNoSel ((s.tree.genImplied none).removeFromStack node) := by sel_ok
+    exact this.stack
   show anchorSuffix ((s.tree.genImplied none).stack.filter (· != node)) = _
   rw [anchorSuffix_filter node hen, (keeps_genImplied s.tree none : Keeps _ _)]
 
@@ -63,13 +68,13 @@ theorem inBodyEnd_body (hleg : c.legacySelect = false) (hI : Inv false s) (hB : 
     eval_rule [inBodyEnd, hleg]
     split
     · exact bstep_same hB hph
-    · exact bstep_keep hB hph h1 h2 (Keeps.refl _) (Or.inr (Or.inr ⟨hbe (Or.inl rfl), Or.inl rfl⟩)) (Or.inl rfl) (Or.inl rfl) (fun h => by cases h)
+    · exact bstep_keep hB hph h1 h2 hI.tree.afe (Keeps.refl _) (Or.inr (Or.inr ⟨hbe (Or.inl rfl), Or.inl rfl⟩)) (Or.inl rfl) (Or.inl rfl) (fun h => by cases h) (fun _ h => h)
   by_cases hh : n = .html
   · subst hh
     eval_rule [inBodyEnd, hleg]
     split
     · exact bstep_same hB hph
-    · exact bstep_keep hB hph h1 h2 (Keeps.refl _) (Or.inr (Or.inr ⟨hbe (Or.inr rfl), Or.inl rfl⟩)) (Or.inl rfl) (Or.inl rfl) (fun h => by cases h)
+    · exact bstep_keep hB hph h1 h2 hI.tree.afe (Keeps.refl _) (Or.inr (Or.inr ⟨hbe (Or.inr rfl), Or.inl rfl⟩)) (Or.inl rfl) (Or.inl rfl) (fun h => by cases h) (fun _ h => h)
   by_cases hf : n = .form
   · subst hf
     eval_rule [inBodyEnd, hleg, State.hasOnStack, hasOnStack_template_false hI.tree]
@@ -77,7 +82,7 @@ theorem inBodyEnd_body (hleg : c.legacySelect = false) (hI : Inv false s) (hB : 
     · exact bstep_same hB hph
     · rename_i node hnode
       split
-      · exact ⟨⟨hB.ba, fun f hf => (by cases hf), hB.txt⟩, fun h => h, hph⟩
+      · exact ⟨⟨hB.ba, fun f hf => (by cases hf), hB.txt, hB.sel⟩, fun h => h, hph⟩
       · exact bstep_form hI hB hph h1 h2 node hnode
   have hna' := hna hb
   cases n <;> (try (exfalso; first | exact hb rfl | exact hh rfl | exact hf rfl))
@@ -86,7 +91,8 @@ theorem inBodyEnd_body (hleg : c.legacySelect = false) (hI : Inv false s) (hB : 
   all_goals (try simp only [Bool.not_eq_true', Bool.not_eq_true, Bool.not_eq_false, Bool.not_eq_false'] at *)
   all_goals first
     | body_branch hAT hB hph h1 h2
-    | (refine bstep_keep hB hph h1 h2 (ks_anyOtherEndTag_anchor (Keeps.refl _) _ ?_ hne (hna' ?_))
-        (Or.inl ⟨rfl, rfl⟩) (Or.inl rfl) (Or.inl rfl) (fun h => absurd h h1) <;> decide)
+    | (refine bstep_keep hB hph h1 h2 hI.tree.afe (ks_anyOtherEndTag_anchor (Keeps.refl _) _ ?_ hne (hna' ?_))
+        (Or.inl ⟨rfl, rfl⟩) (Or.inl rfl) (Or.inl rfl) (fun h => absurd h h1)
+        (fun _ hT => TreeOk.anyOtherEndTag' _ _ hT) <;> decide)
 
 end LolHtml.Spec.TreeBuilder
